@@ -117,6 +117,7 @@ def write_if_changed(path, text):
     if os.path.exists(path):
         old = open(path).read()
     if old != text:
+        os.makedirs(os.path.dirname(path), exist_ok=True)     # coq/Gen is git-ignored: absent in a fresh checkout
         with open(path, "w") as f:
             f.write(text)
         return True
